@@ -1664,38 +1664,43 @@ class PyCdlib:
                                        self.eltorito_boot_catalog.validation_entry.platform_id)
 
             num_seen_efi = 0
+            hybrid_entries = set()
             for enc in enc_to_update:
-                if id(enc.entry.inode) in linked_inodes:
+                if id(enc.entry.inode) not in linked_inodes:
+                    enc.entry.set_data_location(current_extent,
+                                                current_extent - part_start)
+                    current_extent = self._set_inode(enc.entry.inode,
+                                                     current_extent, part_start)
+                    linked_inodes.add(id(enc.entry.inode))
+
+                # An image that was placed already (because another boot entry
+                # uses the same file) still has to be reported to the hybrid
+                # MBR, but each boot entry only once.
+                if self.isohybrid_mbr is None or id(enc.entry) in hybrid_entries:
                     continue
+                hybrid_entries.add(id(enc.entry))
+                entry_extent = enc.entry.inode.extent_location()
 
-                enc.entry.set_data_location(current_extent,
-                                            current_extent - part_start)
+                if enc.entry is self.eltorito_boot_catalog.initial_entry:
+                    # The hybrid MBR loads the default boot image (the
+                    # one add_isohybrid checked), not any other one.
+                    self.isohybrid_mbr.update_rba(entry_extent)
 
-                if self.isohybrid_mbr is not None:
-                    if enc.entry is self.eltorito_boot_catalog.initial_entry:
-                        # The hybrid MBR loads the default boot image (the
-                        # one add_isohybrid checked), not any other one.
-                        self.isohybrid_mbr.update_rba(current_extent)
-
-                    if enc.platform_id == 0xef:
-                        # A hybrid made without EFI (or Mac) support has no
-                        # partition for the image; it is only an El Torito one.
-                        if num_seen_efi == 0:
-                            if self.isohybrid_mbr.efi:
-                                self.isohybrid_mbr.update_efi(current_extent,
-                                                              enc.entry.sector_count,
-                                                              self.pvd.space_size * self.logical_block_size)
-                        elif num_seen_efi == 1:
-                            if self.isohybrid_mbr.mac:
-                                self.isohybrid_mbr.update_mac(current_extent,
-                                                              enc.entry.sector_count)
-                        else:
-                            raise pycdlibexception.PyCdlibInternalError('Only expected two EFI sections')
-                        num_seen_efi += 1
-
-                current_extent = self._set_inode(enc.entry.inode, current_extent,
-                                                 part_start)
-                linked_inodes.add(id(enc.entry.inode))
+                if enc.platform_id == 0xef:
+                    # A hybrid made without EFI (or Mac) support has no
+                    # partition for the image; it is only an El Torito one.
+                    if num_seen_efi == 0:
+                        if self.isohybrid_mbr.efi:
+                            self.isohybrid_mbr.update_efi(entry_extent,
+                                                          enc.entry.sector_count,
+                                                          self.pvd.space_size * self.logical_block_size)
+                    elif num_seen_efi == 1:
+                        if self.isohybrid_mbr.mac:
+                            self.isohybrid_mbr.update_mac(entry_extent,
+                                                          enc.entry.sector_count)
+                    else:
+                        raise pycdlibexception.PyCdlibInternalError('Only expected two EFI sections')
+                    num_seen_efi += 1
 
         for ino in pvd_files + joliet_files + udf_files:
             if id(ino) in linked_inodes:
